@@ -225,6 +225,7 @@ class SymCx(BaseCx):
         self.ex = ex
         self.known = list(known)       # known-finding entries for this harness
         self.known_hits = {}
+        self.suppressed = set()        # labels whose failure on this path is a listed finding
 
     # ---- inputs
     def int(self, name, lo, hi):
@@ -254,6 +255,10 @@ class SymCx(BaseCx):
 
     def assume(self, cond):
         self.ex.assume(cond)
+
+    def symlist(self, head, n, fill=0):
+        """List of symbolic length: head + n copies of fill."""
+        return stubs.SymList(head, n, fill)
 
     # ---- obligations
     def _region_expr(self, entry):
@@ -299,6 +304,7 @@ class SymCx(BaseCx):
                 m = ex.query_model(*(extra + [r]))
                 if m is not None:
                     self.known_hits.setdefault(k['id'], ex.model_dict(m))
+                    self.suppressed.add(label)
             excl = z3.And(*[z3.Not(r) for r in regions])
             m = ex.query_model(*(extra + [excl]))
             if m is None:
@@ -356,6 +362,9 @@ class ConCx(BaseCx):
     def assume(self, cond):
         if not cond:
             raise PathAbort()
+
+    def symlist(self, head, n, fill=0):
+        return list(head) + [fill] * n
 
     def check(self, cond, label):
         self.hit(label)
@@ -518,7 +527,7 @@ def run_job(hdef, params, known=(), max_paths=2_000_000, deadline_s=3600,
                 problem = None
                 if escaped:
                     problem = 'concrete run ended with %s' % escaped
-                elif ccx.failed:
+                elif [f for f in ccx.failed if f not in cx.suppressed]:
                     problem = 'concrete run fails %s which the symbolic path passed' % ccx.failed
                 elif len(sym_obs) != len(con_obs) or not all(
                         a[0] == b[0] and approx_equal(a[1], b[1]) for a, b in zip(sym_obs, con_obs)):
